@@ -120,7 +120,7 @@ CHECKS.update({
 
 
 CHECKS.update({
-    "C13": ("fault_enumeration", "fault enumeration: choice-point search over injected solver failures (vsolver seam) x analyses x model classes",
+    "C13": ("model_checking", "exhaustive fault enumeration: choice-point search over injected solver failures (vsolver seam) x analyses x model classes",
             "43 analyses x 7 model classes (feasible, cycle, infeasible, unbounded, zero optimum, empty objective, two "
             "substrates) x {outside, inside a user context after an edit}: fault-free run, repeat run, and every single injected "
             "failure of the k-th solver call (raise SolverError / report infeasible / report undefined), thorough: all pairs for "
